@@ -1,7 +1,7 @@
 (* Properties/C20.v — name/number tables are mutually inverse and internally
-   consistent.  Statements only; every proof is one [exact]/[apply] of a lemma
-   from Inst/ (finite obligations over the tables generated from /repo on this
-   run, each enumerating its whole domain) lifted by Proofs/TablesLift.v. *)
+   consistent.  Statements only; every proof applies a lemma from Inst/ (finite
+   obligations over the tables generated from /repo on this run, each
+   enumerating its whole domain) through Proofs/TablesLift.v. *)
 From Coq Require Import List NArith ZArith Bool String.
 Require Import Bytes Tables TablesLift MsgTypeFwd MsgTypeText TablesOk NormNames.
 Require Import MsgTypes Errno Arch Syscalls RuleTables Norms EventTypes.
@@ -10,27 +10,21 @@ Open Scope N_scope.
 
 (* every record type converts to a name and back *)
 Theorem C20_msgtype_roundtrip : forall t, t < 65536 -> get_type (type_name t) = Some t.
-Proof.
-  intros t Ht. apply optN_eqb_eq. apply (filter_nil_forall (fun t => optN_eqb (get_type (type_name t)) t) _ msgtypes_fwd_ok).
-  apply In_upto; exact Ht.
-Qed.
+Proof. intros t Ht. apply optN_eqb_eq. exact (filter_nil_forall msgtype_fwd_okb all_types msgtypes_fwd_ok t (In_all_types t Ht)). Qed.
 (* ... text marshalling included *)
 Theorem C20_msgtype_text_roundtrip : forall t, t < 65536 -> unmarshal_type (marshal_type t) = Some t.
-Proof.
-  intros t Ht. apply optN_eqb_eq. apply (filter_nil_forall (fun t => optN_eqb (unmarshal_type (marshal_type t)) t) _ msgtypes_text_ok).
-  apply In_upto; exact Ht.
-Qed.
+Proof. intros t Ht. apply optN_eqb_eq. exact (filter_nil_forall msgtype_text_okb all_types msgtypes_text_ok t (In_all_types t Ht)). Qed.
 
 (* every errno number maps to a name that maps back to it *)
 Theorem C20_errno_name_num : forall n s, In (n, s) errno_to_name -> errno_num (s2l s) = Some n.
-Proof. intros n s H. apply optZ_eqb_eq. exact (filter_nil_forall (fun e => optZ_eqb (errno_num (s2l (snd e))) (fst e)) _ errno_names_ok _ H). Qed.
+Proof. intros n s H. apply optZ_eqb_eq. exact (filter_nil_forall errno_name_okb errno_to_name errno_names_ok (n, s) H). Qed.
 (* aliases resolve to the same number *)
 Theorem C20_errno_alias : forall s n, In (s, n) errno_to_num ->
   exists s', errno_name n = Some s' /\ errno_num (s2l s') = Some n.
 Proof.
-  intros s n H.
-  pose proof (filter_nil_forall (fun e : string * Z => match errno_name (snd e) with Some s' => optZ_eqb (errno_num (s2l s')) (snd e) | None => false end) _ errno_nums_ok _ H) as Hok.
-  cbn in Hok. destruct (errno_name n) as [s'|]; [|discriminate]. exists s'. split; auto. apply optZ_eqb_eq; auto.
+  intros s n H. pose proof (filter_nil_forall errno_num_okb errno_to_num errno_nums_ok (s, n) H) as Hok.
+  unfold errno_num_okb in Hok. cbn [snd fst] in Hok. destruct (errno_name n) as [s'|]; [|discriminate].
+  exists s'. split; auto. apply optZ_eqb_eq; auto.
 Qed.
 
 (* every architecture name resolves to one code and back *)
@@ -39,8 +33,8 @@ Theorem C20_arch : (forall c s, In (c, s) arch_names -> arch_code (s2l s) = Some
                    NoDup (map snd arch_names).
 Proof.
   split; [|split].
-  - intros c s H. apply optN_eqb_eq. exact (filter_nil_forall (fun e => optN_eqb (arch_code (s2l (snd e))) (fst e)) _ arch_fwd_ok _ H).
-  - intros s c H. apply optS_eqb_eq. exact (filter_nil_forall (fun e => optS_eqb (arch_name (snd e)) (fst e)) _ arch_rev_ok _ H).
+  - intros c s H. apply optN_eqb_eq. exact (filter_nil_forall arch_fwd_okb arch_names arch_fwd_ok (c, s) H).
+  - intros s c H. apply optS_eqb_eq. exact (filter_nil_forall arch_rev_okb reverse_arch arch_rev_ok (s, c) H).
   - pose proof arch_nodup_ok as H. unfold arch_names_nodup in H. apply andb_true_iff in H. destruct H as [H _].
     revert H. apply nodupb_NoDup. intros a. apply String.eqb_refl.
 Qed.
@@ -48,16 +42,17 @@ Qed.
 (* in each architecture's syscall table a name maps to one number, and the rule
    package's reverse table (built by map iteration in init) is exactly its inverse *)
 Theorem C20_syscalls :
+  (forall a t, In (a, t) syscalls -> NoDup (map snd t)) /\
   (forall a t n name, In (a, t) syscalls -> In (n, name) t -> syscall_num (s2l a) (s2l name) = Some n) /\
   (forall a t name n, In (a, t) reverse_syscalls -> In (name, n) t -> syscall_name (s2l a) n = Some name).
 Proof.
-  split.
+  split; [|split].
+  - intros a t Ha. pose proof (filter_nil_forall syscall_nodup_okb syscalls syscall_dups_ok (a, t) Ha) as H.
+    unfold syscall_nodup_okb in H. cbn [snd] in H. revert H. apply nodupb_NoDup. intros x. apply String.eqb_refl.
   - intros a t n name Ha Hn. apply optZ_eqb_eq.
-    pose proof (flat_map_nil _ _ syscall_fwd_ok _ Ha) as H. cbn in H. apply map_eq_nil in H.
-    exact (filter_nil_forall (fun x => optZ_eqb (syscall_num (s2l a) (s2l (snd x))) (fst x)) _ H _ Hn).
+    exact (filter_nil_forall syscall_fwd_okb syscalls_flat syscall_fwd_ok (a, (n, name)) (in_flat_pairs syscalls a t (n, name) Ha Hn)).
   - intros a t name n Ha Hn. apply optS_eqb_eq.
-    pose proof (flat_map_nil _ _ syscall_rev_ok _ Ha) as H. cbn in H. apply map_eq_nil in H.
-    exact (filter_nil_forall (fun x => optS_eqb (syscall_name (s2l a) (snd x)) (fst x)) _ H _ Hn).
+    exact (filter_nil_forall syscall_rev_okb rsyscalls_flat syscall_rev_ok (a, (name, n)) (in_flat_pairs reverse_syscalls a t (name, n) Ha Hn)).
 Qed.
 
 (* rule field/operator tables and their reverses are mutually inverse;
@@ -68,17 +63,22 @@ Theorem C20_rule_tables :
   (forall c s, In (c, s) reverse_operators_table -> lookupS (s2l s) operators_table = Some c) /\
   (forall s c, In (s, c) fields_table -> lookupN c reverse_fields_table = Some s) /\
   (forall c s, In (c, s) reverse_fields_table -> lookupS (s2l s) fields_table = Some c) /\
-  (forall c a b, In (c, (a, b)) reverse_comparisons_table -> comparison a b = Some c /\ comparison b a = Some c).
+  (forall c a b, In (c, (a, b)) reverse_comparisons_table -> comparison a b = Some c /\ comparison b a = Some c) /\
+  (forall l t r c, In (l, t) comparisons_table -> In (r, c) t -> comparison r l = Some c).
 Proof.
-  repeat split.
-  - intros s c H. apply optS_eqb_eq. exact (filter_nil_forall (fun e : string * N => optS_eqb (lookupN (snd e) reverse_operators_table) (fst e)) _ ops_fwd_ok _ H).
-  - intros c s H. apply optN_eqb_eq. exact (filter_nil_forall (fun e : N * string => optN_eqb (lookupS (s2l (snd e)) operators_table) (fst e)) _ ops_rev_ok _ H).
-  - intros s c H. apply optS_eqb_eq. exact (filter_nil_forall (fun e : string * N => optS_eqb (lookupN (snd e) reverse_fields_table) (fst e)) _ fields_fwd_ok _ H).
-  - intros c s H. apply optN_eqb_eq. exact (filter_nil_forall (fun e : N * string => optN_eqb (lookupS (s2l (snd e)) fields_table) (fst e)) _ fields_rev_ok _ H).
-  - pose proof (filter_nil_forall (fun e : N * (N * N) => optN_eqb (comparison (fst (snd e)) (snd (snd e))) (fst e) && optN_eqb (comparison (snd (snd e)) (fst (snd e))) (fst e)) _ comparisons_rev_ok _ H) as Hok.
-    cbn in Hok. apply andb_true_iff in Hok. apply optN_eqb_eq. tauto.
-  - pose proof (filter_nil_forall (fun e : N * (N * N) => optN_eqb (comparison (fst (snd e)) (snd (snd e))) (fst e) && optN_eqb (comparison (snd (snd e)) (fst (snd e))) (fst e)) _ comparisons_rev_ok _ H) as Hok.
-    cbn in Hok. apply andb_true_iff in Hok. apply optN_eqb_eq. tauto.
+  split; [|split; [|split; [|split; [|split]]]].
+  - intros s c H. apply optS_eqb_eq. exact (filter_nil_forall ops_fwd_okb operators_table ops_fwd_ok (s, c) H).
+  - intros c s H. apply optN_eqb_eq. exact (filter_nil_forall ops_rev_okb reverse_operators_table ops_rev_ok (c, s) H).
+  - intros s c H. apply optS_eqb_eq. exact (filter_nil_forall fields_fwd_okb fields_table fields_fwd_ok (s, c) H).
+  - intros c s H. apply optN_eqb_eq. exact (filter_nil_forall fields_rev_okb reverse_fields_table fields_rev_ok (c, s) H).
+  - intros c a b H. pose proof (filter_nil_forall comparison_rev_okb reverse_comparisons_table comparisons_rev_ok (c, (a, b)) H) as Hok.
+    unfold comparison_rev_okb in Hok. cbn [fst snd] in Hok. apply andb_true_iff in Hok. destruct Hok as [H1 H2].
+    split; apply optN_eqb_eq; assumption.
+  - intros l t r c Hl Hr. apply optN_eqb_eq.
+    assert (Hin : In (l, r, c) comparisons_flat).
+    { unfold comparisons_flat. apply in_flat_map. exists (l, t). split; auto. cbn [fst snd].
+      change (l, r, c) with ((fun x : N * N => (l, fst x, snd x)) (r, c)). apply in_map. exact Hr. }
+    exact (filter_nil_forall comparison_sym_okb comparisons_flat comparisons_sym_ok (l, r, c) Hin).
 Qed.
 
 (* every record type and syscall named in the normalisation table is producible *)
@@ -87,15 +87,15 @@ Theorem C20_norm_names :
   (forall sc, In sc norm_syscalls -> syscall_producible sc = true).
 Proof.
   split.
-  - exact (filter_nil_forall record_type_producible _ norm_record_types_ok).
-  - exact (filter_nil_forall syscall_producible _ norm_syscalls_ok).
+  - exact (filter_nil_forall record_type_producible norm_record_type_names norm_record_types_ok).
+  - exact (filter_nil_forall syscall_producible norm_syscalls norm_syscalls_ok).
 Qed.
 (* what "producible" means, unfolded once so the statement can be read *)
 Theorem C20_producible_meaning : forall rt, record_type_producible rt = true ->
   (exists t, In (t, rt) type_to_name) \/ (exists t, get_type (s2l rt) = Some t /\ type_name t = s2l rt).
 Proof.
   intros rt H. unfold record_type_producible in H. apply orb_true_iff in H. destruct H as [H|H].
-  - left. apply existsb_exists in H. destruct H as ([t n] & Hin & He). cbn in He. apply String.eqb_eq in He. subst. exists t; auto.
+  - left. apply existsb_exists in H. destruct H as ([t n] & Hin & He). cbn [snd] in He. apply String.eqb_eq in He. subst. exists t; auto.
   - right. destruct (get_type (s2l rt)) as [t|]; [|discriminate]. exists t. split; auto. apply str_eqb_eq; auto.
 Qed.
 
@@ -107,7 +107,7 @@ Proof.
   split; [|split].
   - generalize norm_syscalls_nodup_ok. apply nodupb_NoDup. intros a. apply String.eqb_refl.
   - generalize norm_record_types_nodup_ok. apply nodupb_NoDup. intros a. apply String.eqb_refl.
-  - intros rt hs H. exact (filter_nil_forall (fun e : string * list (list string) => all_but_last_nonempty (snd e)) _ (proj1 (map_eq_nil _ _) norm_has_fields_ok) _ H).
+  - intros rt hs H. exact (filter_nil_forall norm_has_fields_okb norm_record_types norm_has_fields_ok (rt, hs) H).
 Qed.
 
 (* every record type is categorised, and the same way on every call *)
